@@ -10,6 +10,6 @@ Extraction "model_wire.ml"
   validate_signature_reason validate_utf8
   spec_interface spec_error_name spec_member spec_path spec_bus_name spec_utf8 spec_signature spec_single_signature
   parse_sig array_nest struct_nest dict_nest
-  validate_body loader_new feed feed_all demarshal bytes_needed
+  validate_body loader_new feed feed_all demarshal bytes_needed max_to_read feed_limited
   spec_decode_message spec_encode_message print_ty enc dec_seq
   build apply_edit swap_order copy_msg ty_of_val sig_of_vals.
